@@ -18,7 +18,8 @@ use staking::msg::{ExecuteMsg, IBCLifecycleComplete, MigrateMsg, QueryMsg, SudoM
 pub fn c15_profile() -> Profile {
     let mut p = Profile::base("C15-diff");
     p.len = (15, 50);
-    p.w_resume = 4;
+    p.w_resume = 6;
+    p.w_breaker = 2;
     p.w_config = 4;
     p
 }
@@ -211,6 +212,7 @@ fn exec_msg(e: &Engine, k: u8, a: u64, b: u128) -> ExecuteMsg {
         3 => String::new(),
         _ => "x".repeat((i % 200) as usize),
     };
+    let addr = |i: u64| if i % 7 == 6 { e.odd_addr((i / 7) as u8) } else { addr(i) };
     match k % 17 {
         0 => ExecuteMsg::LiquidStake { mint_to: if a % 2 == 0 { Some(addr(a / 2)) } else { None }, transfer_to_native_chain: Some(a % 3 == 0), expected_mint_amount: Some(Uint128::new(b)) },
         1 => ExecuteMsg::LiquidUnstake {},
@@ -461,5 +463,20 @@ pub fn run_treasury_hostile(cases: u64, seed: u64) -> RunOutput {
     );
     out.agg.absorb(&o2.agg);
     out.failures.extend(o2.failures);
+    // configuration messages (instantiate / UpdateConfig / validator changes) with field-level corruptions,
+    // judged only for panics
+    let o3 = drive(crate::props_config::cfg_case, cases, seed, 164, |c: &crate::props_config::CfgCase, agg: &mut Agg| {
+        let mut scratch = Agg::default();
+        match crate::props_config::check_cfg_case_panics(c, &mut scratch) {
+            Err(m) => Err(format!("configuration message: {m}")),
+            Ok(()) => {
+                agg.evaluations += 1;
+                *agg.counters.entry("config_messages".into()).or_insert(0) += 1;
+                Ok(())
+            }
+        }
+    });
+    out.agg.absorb(&o3.agg);
+    out.failures.extend(o3.failures);
     out
 }
